@@ -81,7 +81,7 @@ func newEngine(w *World, h *Harness) *Engine {
 	c := smt.NewCtx()
 	e := &Engine{
 		C: c, W: w, harness: h,
-		M:             &memCtx{c: c, memo: map[string]*smt.Term{}},
+		M:             &memCtx{c: c, memo: map[string]*smt.Term{}, baseLike: map[int]bool{}},
 		ly:            &layouts{memo: map[string][]leaf{}},
 		pl:            &places{byKey: map[string]int{}},
 		initMem:       map[string]*MemNode{},
@@ -207,6 +207,9 @@ func (e *Engine) constrain(v Value) {
 		case lkBase:
 			st, _ := e.M.headStamp(t)
 			e.axiom(c.Ult(t, e.k64(freshBaseStart+uint64(st))))
+			e.M.baseLike[t.ID] = true
+			// unknown references never designate a package-level variable of the program under verification
+			e.axiom(c.Or(c.Ult(t, e.k64(globalStart)), c.Ule(e.k64(rodataStart), t)))
 		case lkIndex, lkLen, lkCap:
 			e.axiom(c.Ult(t, e.k64(maxLen)))
 			e.markSmall(t)
@@ -431,6 +434,9 @@ func (e *Engine) constValue(k *ssa.Const) Value {
 }
 
 const rodataStart = uint64(1) << 61
+
+// globalStart: identities of package-level variables live in [2^60, 2^61).
+const globalStart = uint64(1) << 60
 
 // stringLit gives each distinct literal a fixed read-only base with known content.
 func (e *Engine) stringLit(s string, t types.Type) Value {
